@@ -182,7 +182,7 @@ Section R.
     intros HF fuel st b Hfuel He Hw Hp Hfx Hs Hd Hf Hl Hst.
     destruct fuel as [|f]; [cbn in Hfuel; lia|]. rewrite gheight_struct in Hfuel.
     pose proof (pre_align e _ Hp Hw) as Hal. cbn [gsig] in Hal, Hs, Hfx, Hst |- *.
-    destruct (pre_node e _ Hp) as (_ & Hnt & _ & _ & _).
+    destruct (pre_node e _ Hp) as (_ & Hnt & _ & _).
     cbn [gwf] in Hw. apply andb_true_iff in Hw as [Hnel Hwl].
     unfold pre in Hp. rewrite all_nodes_struct in Hp. apply andb_true_iff in Hp as [_ Hpl].
     unfold gfits in Hf. cbn [gdepth_ok] in Hf. apply andb_true_iff in Hf as [Hf Hfl]. apply andb_true_iff in Hf as [Hf1 Hf2].
@@ -669,7 +669,7 @@ Section R.
     intros HF Hfx fuel st Hfuel He Hw Hp Hr Hs Hd Hf Hl Hst. destruct fuel as [|f]; [cbn in Hfuel; lia|].
     rewrite gheight_array in Hfuel.
     pose proof (pre_align e _ Hp Hw) as Hal. cbn [gsig galign] in *.
-    destruct (pre_node e _ Hp) as (_ & _ & _ & _ & Hsmall).
+    destruct (pre_node e _ Hp) as (_ & _ & _ & Hsmall).
     cbn [gwf] in Hw. apply andb_true_iff in Hw as [Hel Hwl].
     unfold pre in Hp. rewrite all_nodes_array in Hp. apply andb_true_iff in Hp as [_ Hpl].
     apply rtok_array in Hr.
@@ -859,7 +859,7 @@ Section R.
     intros HF Hfx fuel st Hfuel He Hw Hp Hr Hs Hd Hf Hl Hst. destruct fuel as [|f]; [cbn in Hfuel; lia|].
     rewrite gheight_struct in Hfuel.
     pose proof (pre_align e _ Hp Hw) as Hal. cbn [gsig] in Hal, Hs, Hst |- *.
-    destruct (pre_node e _ Hp) as (_ & _ & _ & _ & Hsmall).
+    destruct (pre_node e _ Hp) as (_ & _ & _ & Hsmall).
     cbn [gwf] in Hw. apply andb_true_iff in Hw as [Hnel Hwl].
     assert (Hlne : l <> []) by (destruct l; [discriminate|discriminate]).
     unfold pre in Hp. rewrite all_nodes_struct in Hp. apply andb_true_iff in Hp as [_ Hpl].
@@ -1374,7 +1374,7 @@ Section R.
     intros HF fuel st Hfuel He Hw Hp Hr Hs Hd Hf Hl Hst. destruct fuel as [|f]; [cbn in Hfuel; lia|].
     rewrite gheight_dict in Hfuel.
     pose proof (pre_align e _ Hp Hw) as Hal. cbn [gsig galign] in *.
-    destruct (pre_node e _ Hp) as (_ & Hnt & _ & _ & Hsmall).
+    destruct (pre_node e _ Hp) as (_ & Hnt & _ & Hsmall).
     cbn [gwf] in Hw. apply andb_true_iff in Hw as [Hw Hwl]. apply andb_true_iff in Hw as [Hkb Hvs].
     unfold pre in Hp. rewrite all_nodes_dict in Hp. apply andb_true_iff in Hp as [_ Hpl].
     apply rtok_dict in Hr.
@@ -1529,7 +1529,7 @@ Proof.
   destruct (rt_all e v fuel (ginit_dst e pos (gsig v) (gv_marshal e pos v) [])) as (st' & Hdec & Hpos); try assumption; try reflexivity.
   - pose proof (within_limits_fuel v Hl). lia.
   - split; cbn; lia.
-  - cbn [ginit_dst r_len]. pose proof (pre_node e v Hpre) as (_ & _ & _ & _ & Hsm).
+  - cbn [ginit_dst r_len]. pose proof (pre_node e v Hpre) as (_ & _ & _ & Hsm).
     unfold gv_marshal. rewrite (renum_plain v 0 Hp). rewrite len_app, len_pad.
     assert (padn pos (galign (gsig v)) < galign (gsig v)) by (apply DBus.SerProofs.padn_spec, galign_nz).
     destruct (galign_pow2 (gsig v)) as [Hq|[Hq|[Hq|Hq]]]; rewrite Hq in *; unfold big;
